@@ -595,6 +595,7 @@ type Handle struct {
 	dirPos  int
 	dirInit bool
 	wrote   bool
+	nreads  int
 }
 
 const (
@@ -766,10 +767,15 @@ func (h *Handle) Read(b []byte) (n int, eof bool, errno syscall.Errno) {
 	if want > avail {
 		want = avail
 	}
-	if h.stream == 1 {
-		want = w.chunk(w.Spec.Knobs.StdinChunk, want)
-	} else {
-		want = w.chunk(w.Spec.Knobs.FileChunk, want)
+	// short reads are delivered for the first reads of a handle only, so that a
+	// large file still needs a bounded number of operations
+	h.nreads++
+	if h.nreads <= 40 {
+		if h.stream == 1 {
+			want = w.chunk(w.Spec.Knobs.StdinChunk, want)
+		} else {
+			want = w.chunk(w.Spec.Knobs.FileChunk, want)
+		}
 	}
 	if f != nil {
 		switch f.Kind {
